@@ -92,3 +92,53 @@ impl Fp {
         self.u(x.len() as u64)
     }
 }
+
+// ---- seeds that make the FIRST raw output of xoshiro256** (seeded through
+// SplitMix64, as published) equal a chosen value. Derived from the published
+// algorithms only: the first output is rotl(s1 * 5, 7) * 9 where s1 is the
+// second SplitMix64 output, mix(seed + 2 * gamma).
+
+fn inv_odd(c: u64) -> u64 {
+    let mut x = c;
+    for _ in 0..6 {
+        x = x.wrapping_mul(2u64.wrapping_sub(c.wrapping_mul(x)));
+    }
+    x
+}
+
+fn unxorshift(y: u64, k: u32) -> u64 {
+    let mut x = y;
+    let mut t = y >> k;
+    while t != 0 {
+        x ^= t;
+        t >>= k;
+    }
+    x
+}
+
+fn unmix(z: u64) -> u64 {
+    let mut z = unxorshift(z, 31);
+    z = z.wrapping_mul(inv_odd(0x94D0_49BB_1331_11EB));
+    z = unxorshift(z, 27);
+    z = z.wrapping_mul(inv_odd(0xBF58_476D_1CE4_E5B9));
+    unxorshift(z, 30)
+}
+
+/// The seed for which `Xoshiro256StarStar::new(seed).next()` is `target`.
+pub fn seed_for_first_output(target: u64) -> u64 {
+    let s1 = target.wrapping_mul(inv_odd(9)).rotate_right(7).wrapping_mul(inv_odd(5));
+    unmix(s1).wrapping_sub(0x9E37_79B9_7F4A_7C15u64.wrapping_mul(2))
+}
+
+pub const EXTREME_OUTPUTS: [u64; 10] = [
+    u64::MAX,
+    0,
+    0x000F_FFFF_FFFF_FFFF,
+    0x001F_FFFF_FFFF_FFFF,
+    0xFFF0_0000_0000_0000,
+    1 << 52,
+    1 << 53,
+    1,
+    u64::MAX - 1,
+    0x7FFF_FFFF_FFFF_FFFF,
+];
